@@ -49,7 +49,7 @@ func runC13(c *core.Ctx) {
 
 	if pkg := c.P.Pkg("tick/ast"); pkg != nil {
 		c13AST(c, pkg)
-	c13JSONRead(c, pkg)
+		c13JSONRead(c, pkg)
 		c13Codec(c, pkg, "JSONNode", "SetDuration", "JSONNode", "Duration")
 		c13StrEscape(c, pkg)
 	} else {
